@@ -47,6 +47,19 @@ impl FileLock {
         } else {
             FlockOperation::NonBlockingLockExclusive
         };
+        #[cfg(jj_vcs_jj_verif)]
+        if let Some(granted) = crate::verif::lock(&path, blocking) {
+            // A simulation harness owns the lock table.
+            if !granted {
+                return Ok(None);
+            }
+            let file = File::create(&path).map_err(|err| FileLockError {
+                message: "Failed to open lock file",
+                path: path.clone(),
+                err,
+            })?;
+            return Ok(Some(Self { path, file }));
+        }
         loop {
             // Create lockfile, or open pre-existing one
             let file = File::create(&path).map_err(|err| FileLockError {
@@ -104,6 +117,8 @@ impl FileLock {
 impl Drop for FileLock {
     #[instrument(skip_all)]
     fn drop(&mut self) {
+        #[cfg(jj_vcs_jj_verif)]
+        crate::verif::unlock(&self.path);
         // Removing the file isn't strictly necessary, but reduces confusion.
         std::fs::remove_file(&self.path).ok();
         // Unblock any processes that tried to acquire the lock while we held it.
